@@ -353,6 +353,9 @@ theorem asFound_revoke_lost_witness :
           ⟨true, "M", "verif-tunnel-01", "s3cretM", ""⟩ (.bridge "M" false))
       = false := by decide
 
+-- a lock taken only around the write-back does not help: the interleaving stays possible, whichever update it is
+example : (runInterleaved [.stats, .revoke] [.read 0, .read 1, .write 1, .write 0] mM).IsRevoked = false := by decide
+example : (runInterleaved [.status "active", .revoke] [.read 0, .read 1, .write 1, .write 0] mM).IsRevoked = false := by decide
 -- the same threads, not interleaved, are what `runSerial` says (the interleaved semantics is not vacuous)
 example : runInterleaved [.usage, .revoke] [.read 0, .write 0, .read 1, .write 1] mM = runSerial [.usage, .revoke] mM := by decide
 example : runInterleaved [.usage, .revoke] [.read 1, .write 1, .read 0, .write 0] mM = runSerial [.revoke, .usage] mM := by decide
